@@ -3,8 +3,11 @@
 # and reports whether the named property's check raises a violation (expected) or stays silent.
 cd "$(dirname "$0")/.."
 printf "%-44s %-6s %s\n" "change" "check" "verdict"
+# optional arguments: only the changes whose name matches one of the given extended-regex patterns
+ONLY="$*"
 for p in selftest/*.patch seeded/*/patch.diff; do
   [ -f "$p" ] || continue
+  if [ -n "$ONLY" ]; then m=0; for pat in $ONLY; do echo "$p" | grep -Eq "$pat" && m=1; done; [ $m = 1 ] || continue; fi
   case "$p" in selftest/*) n="$(basename "$p" .patch)";; *) n="$(basename "$(dirname "$p")")";; esac
   c="${n%%-*}"
   extra=""
